@@ -95,8 +95,17 @@ class Interactor:
 
         This triggers the close function on available accumulators.
         """
+        # Every accumulator is closed, also when the listener of an
+        # earlier one raises: that exception is raised afterwards
+        error = None
         for acc in self.to_close:
-            acc.close()
+            try:
+                acc.close()
+            except BaseException as exc:
+                if error is None:
+                    error = exc
+        if error is not None:
+            raise error
 
 
 class WorkingFrame:
